@@ -62,6 +62,7 @@ def evalIntrin (f : String) (a b c : Reg) (imm : Nat) : Option Reg :=
   | "movehl_ps" => some (movehl_ps a b) | "movelh_ps" => some (movelh_ps a b) | "movehdup_ps" => some (movehdup_ps a)
   | "blend_ps" => some (blend_ps a b imm) | "extractf128" => some (extractf128 a imm) | "insertf128" => some (insertf128 a b imm)
   | "permute2f128" => some (permute2f128 a b imm) | "permute4x64" => some (permute4x64 a imm)
+  | "permutex2var32" => some (permutex2var32 a b c) | "permutex2var64" => some (permutex2var64 a b c)
   | "permutexvar32" => some (permutexvar32 a b) | "permutexvar64" => some (permutexvar64 a b)
   | "hadd_ps" => some (map32 canon32 (hadd_ps fo a b)) | "hadd_pd" => some (canon64 (hadd_pd fo a b))
   | "add_ps" => some (map32 canon32 (add_ps fo a b)) | "sub_ps" => some (map32 canon32 (sub_ps fo a b))
